@@ -154,6 +154,13 @@ class OraclesMixin:
             self.reroot_oracle(pt, step, inputs)
         return digest
 
+    def incident(self, step, rep, cls, exc, where):
+        """something failed that no enabled oracle judges: counted and sampled, never an alarm"""
+        self.stats["incidental"] += 1
+        self.stats[f"incidental:{where}:{rep}:{cls}"] += 1
+        if len(self.incidents) < 5:
+            self.incidents.append(dict(step=step.get("i"), op=step.get("op"), rep=rep, cls=cls, where=where, msg=str(exc)[:200]))
+
     def primary_prop(self, default):
         f = self.primary_family()
         return FAM_PROP[f] if f else default
@@ -239,6 +246,7 @@ class OraclesMixin:
         feats = dict(op=op, verbs_tail="/".join(pt.m.verbs[-2:]))
         for rep in sorted(pt.real):
             t = pt.real[rep]
+            self.stats["oracle_evals"] += 1
             res = self.call(
                 lambda t=t: dict(
                     it=[c.name for c in t],
@@ -268,20 +276,20 @@ class OraclesMixin:
             # O11.2 export
             ex = self.call(lambda t=t: list(self.export(t).columns))
             if ex[0] != "ok":
-                if rep == "sqlite" and ex[1] in ("NotSupportedError",):
-                    pass
-                elif ex[1] == "OperationalError" and step.get("_fault"):
-                    pass
-                else:
-                    self.violate(
-                        "C11",
-                        "O11.2",
-                        f"export raised {ex[1]} on {rep} (metadata says {lib_names}): {str(ex[2])[:120]}",
-                        rep=rep,
-                        kind="export_failed",
-                        cls=ex[1],
-                        **feats,
-                    )
+                # no frame was produced; C11 is about agreement, so judge the select list the
+                # back end is about to produce (SQL) - any other export failure is not C11's
+                self.incident(step, rep, ex[1], ex[2], "export")
+                if rep == "sqlite":
+                    sl = self.call(lambda t=t: [c.name for c in t._cache.backend.build_select(t._ast.clone()).selected_columns])
+                    if sl[0] == "ok" and sl[1] != lib_names:
+                        self.violate(
+                            "C11",
+                            "O11.2",
+                            f"columns()={lib_names} but the SELECT list compiled for export is {sl[1]} on {rep} (export raised {ex[1]})",
+                            rep=rep,
+                            kind="select_list",
+                            **feats,
+                        )
             elif ex[1] != lib_names:
                 self.violate(
                     "C11",
@@ -309,7 +317,8 @@ class OraclesMixin:
                     self.violate("C11", "O11.4", f"str(table) raised {pr[1]}", rep=rep, **feats)
                 txt = pr[1]
                 if "export failed" in txt or "building query failed" in txt:
-                    self.violate("C11", "O11.4", f"printing failed: {txt.splitlines()[1:3]}", rep=rep, kind="print_failed", **feats)
+                    self.stats["print_failed"] += 1
+                    continue
                 lines = txt.split("\n")
                 shape = next((ln for ln in lines if ln.startswith("shape:")), None)
                 header = next((ln for ln in lines if ln.startswith("│")), None)
@@ -351,13 +360,20 @@ class OraclesMixin:
                 # first try without probes: is it the table or the probe that fails?
                 res0 = self.observe(pt, rep, [])
                 which = "export" if res0[0] != "ok" else "probe"
+                self.incident(step, rep, cls, res[2], which)
+                tail = "/".join(m.verbs[-3:])
                 if "O8" in self.fam and rep == "sqlite":
-                    self.violate("C08", "O8.5", f"accepted pipeline fails at {which} on sqlite with {cls}: {str(res[2])[:160]}", cls=cls, op=op, which=which, tail="/".join(m.verbs[-3:]))
+                    self.violate("C08", "O8.5", f"accepted pipeline fails at {which} on sqlite with {cls}: {str(res[2])[:160]}", cls=cls, op=op, which=which, tail=tail)
                 if which == "probe" and self.fam & {"O9", "O6", "O16"}:
                     self.violate(prop, "O9.1", f"using an in-scope reference after `{op}` raised {cls} on {rep}: {str(res[2])[:160]}", cls=cls, op=op, rep=rep)
                 if which == "export":
-                    p2 = "C14" if "O14" in self.fam else prop
-                    self.violate(p2, "O14.4" if p2 == "C14" else "export", f"accepted pipeline does not export on {rep}: {cls}: {str(res[2])[:160]}", cls=cls, op=op, rep=rep, tail="/".join(m.verbs[-3:]))
+                    if rep == "polars" and "O14" in self.fam:
+                        self.violate("C14", "O14.4", f"pipeline accepted by every verb does not export on polars: {cls}: {str(res[2])[:160]}", cls=cls, op=op, tail=tail)
+                    if "O6" in self.fam and op == "join":
+                        self.violate("C06", "O6.export", f"join result does not export on {rep}: {cls}: {str(res[2])[:160]}", cls=cls, rep=rep, how=step.get("how"))
+                    if "O16" in self.fam and op in REROOT_OPS:
+                        self.violate("C16", "O16.1", f"`{op}` result does not export on {rep}: {cls}: {str(res[2])[:160]}", cls=cls, rep=rep, op=op, grouped=bool(m.grouping))
+                    pt.real.pop(rep, None)
                 continue
             _, cols, rows = res
             npr = len(pr)
@@ -375,6 +391,7 @@ class OraclesMixin:
                     self.violate(prop, orc, f"after `{op}` on {rep}: {why}", op=op, rep=rep, tail="/".join(m.verbs[-3:]), **feats)
             obs[rep] = (vis_cols, [r[: len(vis_cols)] for r in rows])
             self.stats["exports"] += 1
+            self.stats["oracle_evals"] += 1
             self.stats["cells_decoded"] += len(rows) * len(toks)
             if npr:
                 self.stats["probe_cols"] += npr
